@@ -12,21 +12,21 @@ EXTENDS JsepOps
 CONSTANTS Impl,        \* "intended": JSEP incl. rollback; "asis": what pion does (no rollback edge)
           BadClasses   \* set of defect classes for damaged descriptions (C03); {} switches them off
 
-VARIABLES sig, pl, pr, cl, cr, lo, la, neg, last
+VARIABLES sig, pl, pr, cl, cr, lo, la, neg, rx, last
 
-vars  == <<sig, pl, pr, cl, cr, lo, la, neg, last>>
-view  == <<sig, pl, pr, cl, cr, lo, la, neg>>
-St    == [sig |-> sig, pl |-> pl, pr |-> pr, cl |-> cl, cr |-> cr, lo |-> lo, la |-> la, neg |-> neg]
+vars  == <<sig, pl, pr, cl, cr, lo, la, neg, rx, last>>
+view  == <<sig, pl, pr, cl, cr, lo, la, neg, rx>>
+St    == [sig |-> sig, pl |-> pl, pr |-> pr, cl |-> cl, cr |-> cr, lo |-> lo, la |-> la, neg |-> neg, rx |-> rx]
 Slots == [pendL |-> pl, pendR |-> pr, curL |-> cl, curR |-> cr]
 
 Created == {"none", "one", "two"}   \* how many descriptions of that kind were created so far (capped)
 Bump(c) == IF c = "none" THEN "one" ELSE "two"
 
 TypeOK == /\ sig \in Sig /\ {pl, pr, cl, cr} \subseteq {None, "offer", "pranswer", "answer"}
-          /\ lo \in Created /\ la \in Created /\ neg \in 0..2
+          /\ lo \in Created /\ la \in Created /\ neg \in 0..2 /\ rx \in {"plain", "odd"}
 
 Init == /\ sig = "stable" /\ pl = None /\ pr = None /\ cl = None /\ cr = None
-        /\ lo = "none" /\ la = "none" /\ neg = 0
+        /\ lo = "none" /\ la = "none" /\ neg = 0 /\ rx = "plain"
         /\ last = [op |-> "init"]
 
 \* Which (state, side, type) the modelled implementation accepts.
@@ -48,13 +48,13 @@ SetSlots(side, ty) ==
 
 CreateOffer ==
   /\ lo' = Bump(lo)
-  /\ UNCHANGED <<sig, pl, pr, cl, cr, la, neg>>
+  /\ UNCHANGED <<sig, pl, pr, cl, cr, la, neg, rx>>
   /\ last' = [op |-> "CreateOffer", exp |-> "ok"]
 
 CreateAnswer ==
   LET ok == sig \in {"have-remote-offer", "have-local-pranswer"} IN
   /\ la' = IF ok THEN Bump(la) ELSE la
-  /\ UNCHANGED <<sig, pl, pr, cl, cr, lo, neg>>
+  /\ UNCHANGED <<sig, pl, pr, cl, cr, lo, neg, rx>>
   /\ last' = [op |-> "CreateAnswer", exp |-> IF ok THEN "ok" ELSE "err"]
 
 SetLocal(ty, src) ==
@@ -64,7 +64,7 @@ SetLocal(ty, src) ==
                 /\ SetSlots("local", ty)
                 /\ neg' = IF ty = "answer" /\ neg < 2 THEN neg + 1 ELSE neg
            ELSE UNCHANGED <<sig, pl, pr, cl, cr, neg>>
-  /\ UNCHANGED <<lo, la>>
+  /\ UNCHANGED <<lo, la, rx>>
   /\ last' = [op |-> "SetLocal", type |-> ty, src |-> src, bad |-> "none",
               exp |-> IF ok THEN "ok" ELSE "err"]
 
@@ -72,18 +72,23 @@ SetRemote(ty, src, bad) ==
   LET ok == Accepts(sig, "remote", ty) /\ bad = "none" /\ (src = "empty" => Impl = "intended") IN
   /\ src = "empty" => ty = "rollback"
   /\ bad # "none" => ty # "rollback" /\ src = "peer"
+  /\ src = "peerx" => ty = "offer"
   /\ IF ok THEN /\ sig' = JsepTarget(sig, "remote", ty)
                 /\ SetSlots("remote", ty)
                 /\ neg' = IF ty = "answer" /\ neg < 2 THEN neg + 1 ELSE neg
            ELSE UNCHANGED <<sig, pl, pr, cl, cr, neg>>
   /\ UNCHANGED <<lo, la>>
+  \* "peerx": a well-formed offer that also has sections the endpoint does not use (an m=text section
+  \* and an audio section without direction attribute); accepted exactly like "peer", but what the
+  \* endpoint must answer differs, so the flavour of the last applied remote offer is state
+  /\ rx' = IF ok /\ ty = "offer" THEN (IF src = "peerx" THEN "odd" ELSE "plain") ELSE rx
   /\ last' = [op |-> "SetRemote", type |-> ty, src |-> src, bad |-> bad,
               exp |-> IF ok THEN "ok" ELSE "err"]
 
 Next == \/ CreateOffer
         \/ CreateAnswer
         \/ \E ty \in SType, src \in LocalSrc : SetLocal(ty, src)
-        \/ \E ty \in SType, src \in {"peer", "empty"}, bad \in BadClasses \cup {"none"} : SetRemote(ty, src, bad)
+        \/ \E ty \in SType, src \in {"peer", "peerx", "empty"}, bad \in BadClasses \cup {"none"} : SetRemote(ty, src, bad)
 
 Spec == Init /\ [][Next]_vars
 
